@@ -45,8 +45,11 @@ def xround(x):
 
 
 class Ref:
-    def __init__(self, nodes, variables=None, units=False, negzero=False):
+    def __init__(self, nodes, variables=None, units=False, negzero=False, ids=None):
         self.nodes = nodes
+        # unique IDs (section 5.2.1): value -> element, from the attribute types the GENERATOR declared in the
+        # DTD (xpgen.id_table); None = the document has no DTD, no element has a unique ID
+        self.ids = ids or {}
         self.vars = variables or {}
         self.units = units
         self.negzero = negzero      # known finding K13: a string denoting negative zero converts to +0
@@ -448,6 +451,22 @@ class Ref:
                         return v == want or v.startswith(want + "-")
                 nd = nd.parent
             return False
+        if name == "id":
+            # section 4.1: node-set argument -> union of id(string-value of each node); anything else is
+            # converted to a string, split into whitespace-separated tokens; the result holds the elements of
+            # the context node's document whose unique ID equals one of the tokens (a set: document order)
+            need(1)
+            v = A(0)
+            if isinstance(v, list):
+                strings = [self.string_value(x) for x in v]
+            else:
+                strings = [self.to_str(v)]
+            out = []
+            for s in strings:
+                for t in re.split(r"[ \t\r\n]+", s):
+                    if t and t in self.ids:
+                        out.append(self.ids[t])
+            return self.docsort(out)
         raise XPathTypeError("unknown function " + name)
 
 
